@@ -1386,9 +1386,11 @@ def lock_class_of(fn, l):
     return 'ty:' + guard_locals(fn).get(l, '?')
 
 
-def live_guards(fn):
-    """forward may-dataflow: block -> set of guard locals live at the *terminator* of the block."""
-    key = 'liveg'
+def live_guards(fn, must=False):
+    """forward dataflow: block -> set of guard locals live at the *terminator* of the block.
+    may (default): live on some path; must: live on every path (intersection at joins) -- a lock is
+    only *held* at a point if its guard is live on every path reaching it."""
+    key = 'liveg_must' if must else 'liveg'
     if key in fn._sym:
         return fn._sym[key]
     gl = guard_locals(fn)
@@ -1438,15 +1440,25 @@ def live_guards(fn):
             if inn[tb] is None:
                 inn[tb] = fa
                 dq.append(tb)
+            elif must:
+                if not inn[tb] <= fa:
+                    inn[tb] = inn[tb] & fa
+                    dq.append(tb)
             elif not fa <= inn[tb]:
                 inn[tb] = inn[tb] | fa
                 dq.append(tb)
     fn._sym[key] = out_t
-    fn._sym['liveg_in'] = inn
+    fn._sym['liveg_must_in' if must else 'liveg_in'] = inn
     return out_t
 
 
-def held_classes_at(fn, bb, idx=None):
+def held_classes_at(fn, bb, idx=None, must=False):
+    if must:
+        return {lock_class_of(fn, l) for l in _live_at(fn, bb, idx, must=True)}
+    return _held_classes_at_may(fn, bb, idx)
+
+
+def _held_classes_at_may(fn, bb, idx=None):
     """lock classes of the guards live at the terminator of bb (idx None) or just before
     statement idx of bb."""
     if idx is None or idx >= len(fn.blocks[bb]['s']):
@@ -1508,12 +1520,12 @@ def lock_class_of_call(fn, bb):
     return S.describe(S.operand(t['a'][0]))
 
 
-def _live_at(fn, bb, idx=None):
-    live_guards(fn)
+def _live_at(fn, bb, idx=None, must=False):
+    live_guards(fn, must)
     if idx is None or idx >= len(fn.blocks[bb]['s']):
-        return set(live_guards(fn)[bb])
+        return set(live_guards(fn, must)[bb])
     gl = guard_locals(fn)
-    cur = set(fn._sym['liveg_in'][bb] or ())
+    cur = set(fn._sym['liveg_must_in' if must else 'liveg_in'][bb] or ())
     for st in fn.blocks[bb]['s'][:idx]:
         if st[0] == 'sd':
             cur.discard(st[1])
@@ -1534,10 +1546,10 @@ def short_ty(t):
     return t
 
 
-def held_types_at(fn, bb, idx=None):
+def held_types_at(fn, bb, idx=None, must=False):
     """guarded types (short) of the guards live at a point: the type-based lock class."""
     gl = guard_locals(fn)
-    return {short_ty(gl[l]) for l in _live_at(fn, bb, idx) if l in gl}
+    return {short_ty(gl[l]) for l in _live_at(fn, bb, idx, must) if l in gl}
 
 
 # ----------------------------------------------------------------------------- discards (P6)
